@@ -398,6 +398,11 @@ func setRelayConfig(config *beaconblockproposer.RelayConfig,
 	fallbackFeeRecipient bellatrix.ExecutionAddress,
 	fallbackGasLimit uint64,
 ) {
+	if relayConfig == nil {
+		// A relay listed with a null configuration has no overrides.
+		relayConfig = &BaseRelayConfig{}
+	}
+
 	if relayConfig.PublicKey != nil {
 		config.PublicKey = relayConfig.PublicKey
 	}
